@@ -11,7 +11,7 @@ use crate::gen_prog::{GT, Mode, gen_program_with};
 use crate::hast::{H, hb};
 use crate::normalizer::normalize_weak_head;
 use crate::parser::parse;
-use crate::perturb::perturb;
+use crate::perturb::perturb_or_edit as perturb;
 use crate::printer::{Style, print};
 use crate::term::{Term, Variant};
 use crate::tokenizer::tokenize;
